@@ -1,5 +1,5 @@
 (* C18 — Telstate stream resolution and flag-stream upgrade.  Statements only. *)
-From Coq Require Import ZArith List Bool String.
+From Coq Require Import ZArith List Bool String Permutation.
 From KV Require Import Base.Sx Base.Str Gen.Generated Model.Telstate Proofs.TelstateP.
 Import ListNotations.
 Open Scope string_scope.
@@ -71,6 +71,34 @@ Theorem C18_sensor_most_specific : forall ps st n, n <> ""%string ->
 Proof. exact sensor_most_specific. Qed.
 Print Assumptions C18_sensor_most_specific.
 
+(* the rank is computed by the code as prefixes.index(key[:len(key) - len(sensor_name)]): that IS the index of the
+   first prefix in view order that fits the key (so the comparison of ranks compares namespaces, not key lengths) *)
+Theorem C18_sensor_rank_as_coded : forall ps k r,
+  key_rank ps k = Some r -> rank_in_code ps k (shorten_key ps k) = Some r.
+Proof. exact rank_in_code_ok. Qed.
+Print Assumptions C18_sensor_rank_as_coded.
+
+(* ... which is the namespace-by-namespace reading of the property: the sensor n is the mutable key <p><n> of the
+   FIRST namespace p of the view that has one (immutable keys are passed over), absent if none has - for every
+   store with distinct keys, every view and every name that is not aliased (see [canonical]) *)
+Theorem C18_sensor_eq_spec : forall ps st n, n <> ""%string -> NoDup (map e_key st) -> canonical ps st n ->
+  sensor_key ps st n = spec_sensor st ps n.
+Proof. exact sensor_eq_spec. Qed.
+Print Assumptions C18_sensor_eq_spec.
+
+(* the order in which telstate.keys() lists the keys is immaterial *)
+Theorem C18_sensor_order_independent : forall ps st st' n, n <> ""%string -> Permutation st st' ->
+  sensor_key ps st n = sensor_key ps st' n.
+Proof. exact sensor_order_independent. Qed.
+Print Assumptions C18_sensor_order_independent.
+
+(* the sensor NAMES of the data set: exactly the non-empty shortened names of the mutable keys; an immutable key, a
+   key that equals a prefix and a key under no prefix of the view never appear *)
+Theorem C18_sensor_names : forall ps st n,
+  In n (sensor_names ps st) <-> n <> ""%string /\ exists e, In e st /\ owns ps n e = true.
+Proof. exact sensor_names_iff. Qed.
+Print Assumptions C18_sensor_names.
+
 (* before the repair the LAST key in key order won, so a less specific namespace could win (F6, fixed):
    the witness on which the old table and the new one differ *)
 Theorem C18_sensor_refuted_before_fix :
@@ -93,18 +121,47 @@ Theorem C18_wrong_type_refused : forall ty, check_stream_type ty = true <-> ty =
 Proof. exact wrong_type_refused. Qed.
 Print Assumptions C18_wrong_type_refused.
 
-(* flags upgrade: only sdp.flags streams whose src_streams contains the opened stream count; the last such
-   stream wins; any of them with a different channel/baseline shape is an error — for every archived list *)
+(* flags upgrade, for every archived list: streams that are not sdp.flags streams of the opened stream are
+   ignored; the FIRST defective one (incompatible channel/baseline shape = 1 ValueError; no sources / no chunk info
+   = 2 KeyError) is the error; otherwise the LAST one replaces the flags; none = own flags *)
 Theorem C18_flags_upgrade_rule : forall stream archived cur,
-  upgrade_flags stream cur archived = spec_upgrade stream cur archived.
+  upgrade_flags stream cur archived =
+  let ss := statuses stream (c_rest cur) archived in
+  match find is_err ss with
+  | Some r => r
+  | None => match rev ss with r :: _ => r | [] => Ok cur end
+  end.
 Proof. exact flags_upgrade_rule. Qed.
 Print Assumptions C18_flags_upgrade_rule.
 
 (* which archived streams count: type sdp.flags AND the opened stream among the sources *)
 Theorem C18_flag_source_iff : forall stream f,
-  is_flag_source stream f = true <-> f_type f = Some "sdp.flags"%string /\ In stream (f_src f).
+  is_flag_source stream f = true <-> f_type f = Some "sdp.flags"%string /\ exists l, f_src f = Some l /\ In stream l.
 Proof. exact flag_source_iff. Qed.
 Print Assumptions C18_flag_source_iff.
+
+Theorem C18_flag_candidate_ignored_iff : forall stream rest f,
+  candidate_status stream rest f = None <->
+  f_type f <> Some "sdp.flags"%string \/ exists l, f_src f = Some l /\ ~ In stream l.
+Proof. exact candidate_ignored_iff. Qed.
+Print Assumptions C18_flag_candidate_ignored_iff.
+
+(* what must NOT change *)
+Theorem C18_flags_ignore_other_streams : forall stream cur archived,
+  (forall f, In f archived -> candidate_status stream (c_rest cur) f = None) ->
+  upgrade_flags stream cur archived = Ok cur.
+Proof. exact upgrade_ignores_others. Qed.
+Print Assumptions C18_flags_ignore_other_streams.
+
+Theorem C18_flags_keep_shape : forall stream archived cur c,
+  upgrade_flags stream cur archived = Ok c -> c_rest c = c_rest cur.
+Proof. exact upgrade_keeps_shape. Qed.
+Print Assumptions C18_flags_keep_shape.
+
+Theorem C18_flags_errors : forall stream archived cur e,
+  upgrade_flags stream cur archived = Err e -> e = 1%Z \/ e = 2%Z.
+Proof. exact upgrade_err. Qed.
+Print Assumptions C18_flags_errors.
 
 (* differing dump counts: every array is extended to the longest one by one-dump phantom chunks appended
    after its own (unaltered) chunks *)
@@ -146,3 +203,49 @@ Theorem C18_open_refines_spec : forall m st vals kwcb urlcb kwsn urlsn, dumps_no
   open_url m st vals kwcb urlcb kwsn urlsn = spec_open_url m st vals kwcb urlcb kwsn urlsn.
 Proof. exact open_url_spec. Qed.
 Print Assumptions C18_open_refines_spec.
+
+(* EVERY entry point (from_url, open_data_source, katdal.open of a '*.rdb' name or of a URL): the scheme dispatch,
+   the handler around load_from_file and the re-raise of open_data_source, as generated from the source, give: a
+   file that cannot be read (OSError) or parsed (RdbParseError) and an unknown scheme are DataSourceNotFound (5);
+   a readable file is opened exactly as spec_open_url says *)
+Theorem C18_entry_points_refine_spec : forall h scheme l m st vals kwcb urlcb kwsn urlsn, dumps_nonneg vals ->
+  open_how h scheme l m st vals kwcb urlcb kwsn urlsn = spec_open_how h scheme l m st vals kwcb urlcb kwsn urlsn.
+Proof. exact open_how_spec. Qed.
+Print Assumptions C18_entry_points_refine_spec.
+
+Theorem C18_unreadable_not_found : forall h l m st vals kwcb urlcb kwsn urlsn,
+  (l = Raises "OSError" \/ l = Raises "RdbParseError") ->
+  (forall e s, h = HOpen e s -> (e || s)%bool = true) ->
+  open_how h "file" l m st vals kwcb urlcb kwsn urlsn = Err 5.
+Proof. exact unreadable_not_found. Qed.
+Print Assumptions C18_unreadable_not_found.
+
+Theorem C18_unknown_scheme_not_found : forall h scheme l m st vals kwcb urlcb kwsn urlsn,
+  ~ In scheme ["file"; "redis"; "http"; "https"]%string ->
+  (forall e s, h = HOpen e s -> (e || s)%bool = true) ->
+  open_how h scheme l m st vals kwcb urlcb kwsn urlsn = Err 5.
+Proof. exact unknown_scheme_not_found. Qed.
+Print Assumptions C18_unknown_scheme_not_found.
+
+(* what must NOT change: a readable source is never "not found" - its own errors (wrong stream type, missing ids,
+   incompatible flags) keep their class - and the outer entry points add nothing to from_url *)
+Theorem C18_readable_never_not_found : forall h m st vals kwcb urlcb kwsn urlsn,
+  (forall e s, h = HOpen e s -> (e || s)%bool = true) ->
+  open_how h "file" Loaded m st vals kwcb urlcb kwsn urlsn = open_url m st vals kwcb urlcb kwsn urlsn
+  /\ open_how h "file" Loaded m st vals kwcb urlcb kwsn urlsn <> Err 5.
+Proof. exact readable_never_not_found. Qed.
+Print Assumptions C18_readable_never_not_found.
+
+(* visdatav4._relative_view (attributes of a cal / other stream "relative to every L0 namespace"): the prefixes
+   are <p><name>_ for the prefixes p of the view IN THE SAME ORDER, and nothing else (exclusive) ... *)
+Theorem C18_relative_view_order : forall ps name, ps <> [] ->
+  relative_view ps name = Some (map (fun p => ((p ++ name) ++ sep)%string) ps).
+Proof. exact relative_view_order. Qed.
+Print Assumptions C18_relative_view_order.
+
+(* ... so attribute k of that stream is attribute <name>_k as seen through the view of the opened stream: taken
+   from the most specific namespace that defines it (C18_attr_most_specific applies) *)
+Theorem C18_relative_lookup : forall st name k ps,
+  lookup st (spec_relative_view ps name) k = lookup st ps (name ++ sep ++ k)%string.
+Proof. exact relative_lookup. Qed.
+Print Assumptions C18_relative_lookup.
